@@ -46,7 +46,7 @@ API = {
                                              ('int', 'res_size'), ('int', 'res_sl'), ('vec', 'a', 'in', 'a_size', 'a_sl'),
                                              ('int', 'a_size'), ('int', 'a_sl'),
                                              ('tmp', 'tmp_space', 'vec_znx_normalize_base2k_tmp_bytes', [])],
-                                     alias=[('res', 'a')], ranges={'log2_base2k': [19]}),
+                                     alias=[('res', 'a')], ranges={'log2_base2k': [19, 1, 62]}),
     'vec_znx_dft': dict(params=[('module',), ('dft', 'res', 'out', 'res_size'), ('int', 'res_size'),
                                 ('vec', 'a', 'in', 'a_size', 'a_sl'), ('int', 'a_size'), ('int', 'a_sl')], alias=[],
                         modules=['fft64', 'ntt120']),
@@ -93,7 +93,7 @@ API = {
                                                  ('int', 'res_size'), ('int', 'res_sl'), ('big', 'a', 'in', 'a_size'),
                                                  ('int', 'a_size'),
                                                  ('tmp', 'tmp_space', 'vec_znx_big_normalize_base2k_tmp_bytes', [])],
-                                         alias=[('res', 'a')], alias_requires={'res_sl': 'N'}, ranges={'log2_base2k': [19]}),
+                                         alias=[('res', 'a')], alias_requires={'res_sl': 'N'}, ranges={'log2_base2k': [19, 62]}),
     'vec_znx_big_range_normalize_base2k': dict(
         params=[('module',), ('k', 'log2_base2k'), ('vec', 'res', 'out', 'res_size', 'res_sl'), ('int', 'res_size'),
                 ('int', 'res_sl'), ('bigrange', 'a', 'in', 'a_range_begin', 'a_range_xend', 'a_range_step'),
